@@ -42,8 +42,11 @@ echo "== demo with patch"; install_demo; R3=$(run_demo); echo "$R3"
 cd /verif; git -C /repo worktree remove --force $WT
 echo "== check on /repo with patch applied"
 git -C /repo apply $S/patch.diff || { echo "PATCH DOES NOT APPLY TO /repo"; exit 3; }
+# the evidence file of the property is rewritten by the run on the patched tree: keep the one of the unchanged tree
+cp /verif/evidence/$P.json /tmp/evidence_keep_$P.json 2>/dev/null
 R4=$(cd /verif && timeout 900 bin/check $P 2>&1 | grep -E "^VIOLATION|^\[|KNOWN" | cut -c1-300); echo "$R4"
 git -C /repo checkout -- .
+mv /tmp/evidence_keep_$P.json /verif/evidence/$P.json 2>/dev/null
 rm -f /verif/replays/${P}_*.json
 python3 - "$P" "$V" "$OUT" "$R1" "$R2" "$R3" "$R4" <<'PY'
 import json,sys
